@@ -90,6 +90,7 @@ type FeedResult struct {
 	Reported      int  // reported strings / byte slices inspected
 	StaleSeen     int  // reported or retained data containing the stale sentinel (Stale policy; counted, not judged)
 	DanglingCache int  // Parse calls after which an open parser keeps a pointer to a released cache buffer (counted, not judged)
+	Guarded       bool // the run used guard pages (RunOpt.Guard and the arena was available)
 	ContentOff    bool // the input itself contains the poison byte: content oracle off
 }
 
@@ -110,6 +111,9 @@ type StubPC struct {
 func (s *StubPC) UnderlayerConn() net.Conn { return s.conn }
 func (s *StubPC) Parse(data []byte) error {
 	s.t.Use(data, "ParserCloser.Parse")
+	if s.t.InFreed(data) {
+		return nil // reported by Use; the bytes mean nothing (and cannot even be read in guard mode)
+	}
 	if !s.contentOff {
 		if i := track.HasPoison(data); i >= 0 {
 			s.poison(data, "ParserCloser.Parse", fmt.Sprintf(" (%q, first at byte %d)", abbreviate(data, 48), i))
@@ -125,6 +129,9 @@ func (e *Env) RunFeeds(c FeedCase, opt RunOpt) *FeedResult {
 	out := &FeedResult{CachedCut: -1}
 	t := track.New(opt.Policy)
 	t.MoveOnGrow = opt.Move
+	if opt.Guard {
+		out.Guarded = t.EnableGuard()
+	}
 	out.T = t
 	conn := &Conn{T: t, FailAt: opt.FailAt}
 	hc := &nbhttp.Conn{Conn: conn}
@@ -145,8 +152,7 @@ func (e *Env) RunFeeds(c FeedCase, opt RunOpt) *FeedResult {
 	poisonSeen := false
 	poison := func(data []byte, where, detail string) {
 		if !poisonSeen {
-			poisonSeen = true
-			t.PoisonRead(data, where, detail)
+			poisonSeen = t.PoisonRead(data, where, detail)
 		}
 	}
 	stub.poison = poison
@@ -295,7 +301,10 @@ func (e *Env) RunFeeds(c FeedCase, opt RunOpt) *FeedResult {
 			}
 		}
 		for _, b := range parser.VerifPendingBody() {
-			t.Use(b, "Parser.pendingBody")
+			if t.InFreed(b) {
+				out.DanglingCache++ // kept, not (yet) used: not a violation by itself
+				continue
+			}
 			out.Reported++
 			if i := track.HasPoison(b); i >= 0 {
 				poison(b, "Parser.pendingBody", fmt.Sprintf(" after Parse call %d (%q, first at byte %d)", out.Reads, abbreviate(b, 48), i))
@@ -380,6 +389,7 @@ func (e *Env) RunFeeds(c FeedCase, opt RunOpt) *FeedResult {
 	}
 	if !out.Hang {
 		out.Viol = t.Violations()
+		t.Release() // guard mode: the case is over, its memory must not be touched any more
 	}
 	return out
 }
